@@ -393,6 +393,39 @@ func genPacked(o *Out, r *Rng, n int, tier string) {
 			o.emit("C03", "CB", "74", hx(r.Bytes(5000)))
 		}
 	}
+	// compressible batches of every magnitude (many tiny entries: the compressor's buffer grows by doubling through
+	// 4 … 128 KiB while deflate feeds it small writes), each followed by further compression calls
+	tiny := func(n int) string {
+		p := make([]string, n)
+		for i := range p {
+			p[i] = fmt.Sprintf("E(%d.%d.0;M(6b;i%d))", 1+i%7, i, i%100)
+		}
+		return "L(" + strings.Join(p, ";") + ")"
+	}
+	for _, k := range []int{300, 700, 1500, 3000, 4500, 6000, 9000, 14000} {
+		o.emit("C07", "HRESET")
+		o.emit("C03", "CP", "74", tiny(k))
+		o.emit("C03", "CB", "74", hx(r.Bytes(40)))
+		o.emit("C03", "CP", "74", tiny(20))
+		o.emit("C03", "CP", "74", tiny(k+1))
+		o.emit("C03", "PK", "74", tiny(30))
+	}
+	// half-compressible payloads (16 symbols: about 4 bits per byte) of every magnitude: gzip outputs from a few KiB to
+	// beyond 100 KiB, written by deflate in small pieces (the buffer's capacity is then a power of two)
+	semi := func(n int) []byte {
+		b := make([]byte, n)
+		for i := range b {
+			b[i] = "0123456789abcdef"[r.Intn(16)]
+		}
+		return b
+	}
+	for _, k := range []int{3000, 10000, 30000, 50000, 70000, 90000, 110000, 140000, 200000} {
+		o.emit("C07", "HRESET")
+		o.emit("C03", "CB", "74", hx(semi(k)))
+		o.emit("C03", "CB", "74", hx(r.Bytes(40)))
+		o.emit("C03", "CP", "74", tiny(20))
+		o.emit("C03", "CB", "74", hx(semi(k/2)))
+	}
 	// streams of tiny entries (12 and 15 bytes each: below any "average entry" guess), 1 … 40 of them
 	o.emit("C07", "HRESET")
 	for k := 1; k <= 40; k++ {
